@@ -240,7 +240,7 @@ def alloc_observe(r):
         _ALLOC_BINS = kani.native_bin()
     b = _ALLOC_BINS['release' if r['mode'] == 'alloc_stress' else 'debug']
     if r['mode'] == 'alloc_step':
-        cmd = [b, 'step', str(r['limit']), str(r['used']), r['op'], str(r['size']), str(r['old'])]
+        cmd = [b, 'step', str(r['limit']), str(r['used']), r['op'], str(r['size']), str(r['old']), str(r.get('align', 1))]
     elif r['mode'] == 'alloc_helper':
         cmd = [b, 'helper', str(r['limit']), str(r['used']), str(r['peak']), r['which'], str(r['new_limit'])]
     else:
@@ -418,11 +418,17 @@ def check_mirsym(pid, tier, seed):
     os.makedirs(os.path.join(CASES, pid), exist_ok=True)
     vlines = []
     dedup = set()
+    per_harness = {}
+    suppressed = 0
     for hn, label, case, what in new_viol:
         key = (hn, label)
         if key in dedup:
             continue
         dedup.add(key)
+        per_harness[hn] = per_harness.get(hn, 0) + 1
+        if per_harness[hn] > 8:
+            suppressed += 1          # same harness, yet another obligation text: eight replay files per harness are enough
+            continue
         path = os.path.join(CASES, pid, '%s-%d.json' % (hn.replace('/', '_'), len(dedup)))
         case['property'] = pid
         case['what'] = what
@@ -432,6 +438,8 @@ def check_mirsym(pid, tier, seed):
         print('  %s [%s] %s :: %s' % (hn, label, json.dumps(case['inputs'])[:300], what[:300]))
     for ln in vlines:
         print(ln)
+    if suppressed:
+        print('NOTE %d further reproduced violations of the same harnesses are not listed (eight case files per harness)' % suppressed)
     for hn, label, case, what in kernel_only:
         print('NOTE reproduced at the unit level only (no query form of these arguments): %s [%s] %s' % (hn, label, what[:200]))
     for i in inconclusive:
